@@ -4,7 +4,9 @@
    any sub-expression, hence not the search result nor any capture group.  And the hand-off is
    total: an expression the analysis judges easy never reaches to_str's panic arm.
    Statements only; proofs in Proofs/Inject.v and Proofs/ExprLemmas.v. *)
-From FR Require Import Base Utf8 Ast Analyze Sem Escape ExprLemmas SemSound Inject.
+From FR Require Import Base State Utf8 Utf8Facts Chars Ast Analyze Sem Escape ExprLemmas SemSound Inject
+                       Vm Compile Machine Param ArrowA CompileCorrect RunCorrect EndToEnd.
+From Coq Require Import NArith Lia.
 
 Theorem C03_inject_sem : forall cx e e', inj e e' ->
   ngroups e' = ngroups e /\ forall fuel g st, sem cx e' fuel g st = sem cx e fuel g st.
@@ -13,6 +15,35 @@ Proof. intros cx e e' H. exact (inj_same_sem cx e e' H). Qed.
 Theorem C03_inject_search : forall cx e e' fuel, inj e e' ->
   search_list cx e' fuel = search_list cx e fuel.
 Proof. intros. now apply inj_search. Qed.
+
+
+(* VM half (proved, Proofs/EndToEnd.v stage 3): the two spellings are compiled to DIFFERENT
+   programs - the injected (?=) moves the delegation boundaries - and whenever both runs come to
+   a verdict (neither gives up on its stack bound or backtrack limit), the verdicts and every
+   capture slot are the same: each program follows the reference search of its own tree, and
+   the reference searches coincide.  [oke] / [refs_ok]: see Properties/C01.v. *)
+Theorem C03_vm_split_independent :
+  forall cs : list (list nat), valid_chars cs ->
+  forall cx : ctx, c_text cx = concat cs -> (N.of_nat (length (concat cs)) < usize_max)%N ->
+  bnd cs (c_pos cx) ->
+  forall (bs : N -> bool) (e e' : expr) (p p' : prog), inj e e' ->
+  compile bs (wrap e) = inr p -> oke true 0 (wrap e) -> refs_ok True (refd bs) (wrap e) ->
+  compile bs (wrap e') = inr p' -> oke true 0 (wrap e') -> refs_ok True (refd bs) (wrap e') ->
+  forall max_st lim fuelv max_st' lim' fuelv',
+  match fst (vm_run cx p max_st lim fuelv), fst (vm_run cx p' max_st' lim' fuelv') with
+  | RMatch sv, RMatch sv' => firstn (2 * S (ngroups e)) sv = firstn (2 * S (ngroups e)) sv'
+  | RNoMatch, RNoMatch => True
+  | RMatch _, RNoMatch | RNoMatch, RMatch _ => False
+  | RPanic, _ | _, RPanic => False
+  | _, _ => True
+  end.
+Proof.
+  intros cs W cx Ht Hl Hp bs e e' p p' Hi Hc Ho Hr Hc' Ho' Hr' max_st lim fuelv max_st' lim' fuelv'.
+  pose proof (vm_agrees_with_reference_all cs W cx Ht Hl Hp bs e p Hc Ho Hr max_st lim fuelv) as H.
+  pose proof (vm_agrees_with_reference_all cs W cx Ht Hl Hp bs e' p' Hc' Ho' Hr' max_st' lim' fuelv') as H'.
+  rewrite (inj_search cx e e' _ Hi) in H'. rewrite (proj1 (inj_same_sem cx e e' Hi)) in H'.
+  destruct (fst (vm_run cx p max_st lim fuelv)), (fst (vm_run cx p' max_st' lim' fuelv')); auto; congruence.
+Qed.
 
 Theorem C03_to_str_total : forall bs e g prec,
   acheck g e = None -> hard bs g e = false -> to_str e prec <> None.
@@ -37,3 +68,4 @@ Qed.
 Print Assumptions C03_inject_sem.
 Print Assumptions C03_inject_search.
 Print Assumptions C03_to_str_total.
+Print Assumptions C03_vm_split_independent.
